@@ -29,6 +29,11 @@ theorem native_float_max_exact (n : Nat) (v b : Rat) (e : Bool) :
     nativeMax (.float n) v b e = specMax v b e := Values.native_float_max_exact n v b e
 theorem native_float_min_exact (n : Nat) (v b : Rat) (e : Bool) :
     nativeMin (.float n) v b e = specMin v b e := Values.native_float_min_exact n v b e
+/-- unsigned kinds, positive integral factor -/
+theorem native_uint_mul_exact (n : Nat) (a : Nat) (b : Int) (hb : 0 < b) :
+    nativeMulInt (.uint n) ((a : Int) : Rat) (b : Rat) = some (specMul ((a : Int) : Rat) (b : Rat)) :=
+  Values.native_uint_mul_exact n a b hb
+
 /-- integer carriers, integral factor: exact divisibility -/
 theorem native_int_mul_exact (n : Nat) (a b : Int) :
     nativeMulInt (.int n) (a : Rat) (b : Rat) = some (specMul (a : Rat) (b : Rat)) := Values.native_int_mul_exact n a b
